@@ -69,11 +69,13 @@ Print Assumptions c01_order_independent.
 (* The admission loop of broadcastByRtmpMsg has an order-free meaning: every
    admitted session gets the pending merge buffer iff some session is admitted
    in this round; a session being admitted gets its prologue and never the
-   buffer. *)
-Theorem c01_admission_loop : forall cache key subs merge,
-  rtmp_loop cache key subs merge =
-  (map (fin cache key [] (if anytrig cache key subs then merge else [])) subs,
-   if anytrig cache key subs then [] else merge).
+   buffer; a session that keeps waiting for a key frame gets the message
+   itself when it is metadata or a sequence header ([hdr], [lc]: fix F-08i),
+   written to it directly and never through the buffer. *)
+Theorem c01_admission_loop : forall cache key hdr lc subs merge,
+  rtmp_loop cache key hdr lc subs merge =
+  (map (fin cache key hdr lc [] (if anytrig cache key hdr lc subs then merge else [])) subs,
+   if anytrig cache key hdr lc subs then [] else merge).
 Proof. exact rtmp_loop_spec. Qed.
 Print Assumptions c01_admission_loop.
 
